@@ -353,9 +353,9 @@ impl<F: ChanFlavour> ChanSut<F> {
 
 impl<F: ChanFlavour> Drop for ChanSut<F> {
     fn drop(&mut self) {
-        self.sends.clear();
-        self.recvs.clear();
-        self.strm.clear();
+        self.sends.drop_live();
+        self.recvs.drop_live();
+        self.strm.drop_live();
         while self.ch.drop_sender() {}
         while self.ch.drop_receiver() {}
         self.ch.destroy();
@@ -713,6 +713,33 @@ impl<F: ChanFlavour> Sut for ChanSut<F> {
                 e["op"].as_str(),
                 Some("poll_send") | Some("try_send") | Some("poll_recv") | Some("try_recv") | Some("stream_next")
             )
+    }
+
+    fn cleanup_ops(&self) -> Vec<Value> {
+        if self.dead {
+            return Vec::new();
+        }
+        let mut v = Vec::new();
+        for s in self.sends.live_slots() {
+            v.push(json!({"op": "drop_send", "s": s}));
+        }
+        for r in self.recvs.live_slots() {
+            v.push(json!({"op": "drop_recv", "r": r}));
+        }
+        if self.strm.is_live(1) {
+            v.push(json!({"op": "drop_stream"}));
+        }
+        let (hs, hr) = self.ch.handles();
+        if F::SHARED {
+            for _ in 0..hs {
+                v.push(json!({"op": "drop_sender"}));
+            }
+            for _ in 0..hr {
+                v.push(json!({"op": "drop_receiver"}));
+            }
+        }
+        v.push(json!({"op": "destroy"}));
+        v
     }
 
     fn random_op(&self, rng: &mut Rng) -> Value {
